@@ -189,7 +189,28 @@ package vm
 //@   modifies Machine.Vars, map[string]string, map[string]machine.Value
 
 // resource and balance resolution read the store and fill the machine; frame: only the machine's own tables
+// C12: a balance() variable resolves to a monetary whose amount is filled in by ResolveBalances; until then it is
+// pending (nil amount). Every pending resource is registered, under its own index, for ResolveBalances, which
+// leaves none pending: the VM never meets a monetary without an amount.
+//@ def pendingBal(v) = typeis(v, "machine.Monetary") && as(v, "machine.Monetary").Amount == nil
+//@ def pendingRegistered(m) = (forall i9 in 0..len(m.Resources) :: pendingBal(m.Resources[i9]) ==> has(m.UnresolvedResourceBalances, i9)) && (forall k9 int :: has(m.UnresolvedResourceBalances, k9) ==> 0 <= k9 && k9 < len(m.Resources) && typeis(m.Resources[k9], "machine.Monetary"))
 //@ func (*vm.Machine).ResolveResources
-//@   modifies Machine.resolveCalled, Machine.Resources, map[string]int, map[machine.Address]string
+//@   requires m != nil && m.UnresolvedResourceBalances != nil && pendingRegistered(m)
+//@   assumes forall n9 string :: has(m.Vars, n9) ==> !pendingBal(m.Vars[n9])
+//@   ensures err == nil ==> pendingRegistered(m) // C12
+//@   loop 1 invariant pendingRegistered(m) && m.UnresolvedResourceBalances == old(m.UnresolvedResourceBalances)
+//@   modifies Machine.resolveCalled, Machine.Resources, map[int]string, map[machine.Address]string
+//@   property C12
 //@ func (*vm.Machine).ResolveBalances
+//@   requires m != nil && pendingRegistered(m)
+//@   ensures err == nil ==> forall i8 in 0..len(m.Resources) :: !pendingBal(m.Resources[i8]) // C12
+//@   loop 1 invariant len(m.Resources) == old(len(m.Resources)) && m.UnresolvedResourceBalances == old(m.UnresolvedResourceBalances)
+//@   loop 1 invariant forall k7 int :: has(m.UnresolvedResourceBalances, k7) ==> 0 <= k7 && k7 < len(m.Resources) && typeis(m.Resources[k7], "machine.Monetary")
+//@   loop 1 invariant forall i7 in 0..len(m.Resources) :: pendingBal(m.Resources[i7]) ==> has(m.UnresolvedResourceBalances, i7) && !in(i7, visited)
+//@   loop 2 invariant forall i6 in 0..len(m.Resources) :: !pendingBal(m.Resources[i6])
+//@   loop 3 invariant forall i5 in 0..len(m.Resources) :: !pendingBal(m.Resources[i5])
 //@   modifies Machine.Balances, Machine.Resources, map[machine.AccountAddress]map[machine.Asset]*machine.MonetaryInt, map[machine.Asset]*machine.MonetaryInt
+//@   property C12
+
+// a monetary literal of a program always has an amount
+//@ typeinv program.Monetary: self.Amount != nil // C12
